@@ -76,12 +76,14 @@ def run(chk: Check) -> None:
     sub = chk.sub()
     _write_paths(sub, schema, pf, [m for m in schema.reachable("IR")] + ["Offset"])
     chk.adopt(sub, None, "R01.1")
-    from .c02 import _fresh_objects, _presence_flag, _whole_collections
+    from .c02 import _fresh_objects, _presence_flag, _submessage_presence, _whole_collections, _write_conditions
     sub = chk.sub()
     msgs_all = [m for m in schema.reachable("IR")] + ["Offset"]
     _whole_collections(sub, schema, pf, msgs_all)
     _fresh_objects(sub, schema, pf)
     _presence_flag(sub, pf)
+    _submessage_presence(sub, schema, pf, msgs_all)
+    _write_conditions(sub, schema, pf, msgs_all)
     chk.adopt(sub, None, "R01.1")
     from .loader import stage_order
     from .ownership import ownership
@@ -100,8 +102,23 @@ def run(chk: Check) -> None:
     _ctor_copies(sub)
     _typestate(sub, repo.cls("AuxData"))
     _to_protobuf(sub, repo.cls("AuxData"))
+    from .c14 import _from_protobuf as _aux_from_protobuf
+    _aux_from_protobuf(sub, repo.cls("AuxData"))
     codec_state(sub, "R14.5", ("auxdata", "serialization"))
     chk.adopt(sub, None, "R01.5")
+    # what is loaded must be what was saved: references resolve to the loaded nodes (tables are
+    # not decoded while nodes are still missing), nothing is skipped or swallowed on the way in,
+    # and presence is never decided by truthiness of a node
+    from .c09 import _no_decode_during_load
+    from .c17 import _no_swallow
+    from .lookups import truthiness_safe
+    from .c02 import _reader_agreement
+    sub = chk.sub()
+    _no_decode_during_load(sub)
+    _no_swallow(sub)
+    truthiness_safe(sub, "R01.3")
+    _reader_agreement(sub, schema, pf, msgs_all)
+    chk.adopt(sub, None, "R01.3")
 
 
 # ---------------------------------------------------------------------------
